@@ -173,11 +173,17 @@ func optionOrder(p []byte) (codes []string, vals map[byte][]byte) {
 	return
 }
 
-// classifyDHCP turns one frame emitted along a DHCP scenario into a case.
-func classifyDHCP(r *lib.Run, c nicCfg, f []byte, seed string) {
+// dhcpCase is one frame emitted along a DHCP scenario, turned into a case line.
+type dhcpCase struct {
+	kind string
+	args []string
+	obs  string
+}
+
+// classifyDHCP turns one frame emitted along a DHCP scenario into a case (kind "" = unclassifiable).
+func classifyDHCP(f []byte, seed string) (kind string, args []string) {
 	if len(f) < 14+20+8+240 || f[12] != 8 || f[13] != 0 || f[23] != 17 {
-		r.Viol("c07.dhcp.unclassified-frame", "frame emitted by the DHCP handler is not UDP/IPv4 with a BOOTP payload: "+hx(f), "")
-		return
+		return "", nil
 	}
 	sp, dp := be(f[34:36]), be(f[36:38])
 	pl := f[42:]
@@ -187,59 +193,59 @@ func classifyDHCP(r *lib.Run, c nicCfg, f []byte, seed string) {
 		mt = v[0]
 	}
 	order := strings.Join(codes, "/")
-	var kind string
-	var args []string
 	switch {
 	case sp == 67 && dp == 68:
-		kind, args = "dhcpreply", []string{hx(f[0:6]), hx(f[30:34]), hx(pl), seed}
+		return "dhcpreply", []string{hx(f[0:6]), hx(f[30:34]), hx(pl), seed}
 	case sp == 68 && dp == 67 && mt == 1:
-		kind, args = "discover", []string{hx(pl[28:34]), hx(pl[12:16]), hx(pl[4:8]), hx(vals[12]), order, seed}
+		return "discover", []string{hx(pl[28:34]), hx(pl[12:16]), hx(pl[4:8]), hx(vals[12]), order, seed}
 	case sp == 68 && dp == 67 && mt == 4:
-		kind, args = "decline", []string{hx(pl[28:34]), hx(vals[61]), hx(vals[54]), hx(vals[50]), hx(pl[4:8]), order, seed}
+		return "decline", []string{hx(pl[28:34]), hx(vals[61]), hx(vals[54]), hx(vals[50]), hx(pl[4:8]), order, seed}
 	case sp == 68 && dp == 67 && mt == 7:
-		kind, args = "release", []string{hx(pl[28:34]), hx(vals[61]), hx(vals[54]), hx(pl[12:16]), hx(pl[4:8]), order, seed}
-	default:
-		r.Viol("c07.dhcp.unclassified-frame", fmt.Sprintf("DHCP frame with ports %d->%d type %d: %s", sp, dp, mt, hx(f)), "")
-		return
+		return "release", []string{hx(pl[28:34]), hx(vals[61]), hx(vals[54]), hx(pl[12:16]), hx(pl[4:8]), order, seed}
 	}
-	r.Case(kind, append(c.toks(), args...), hx(f))
-	r.Stat("class."+kind, 1)
-	oracle(r, kind, c, args, hx(f))
+	return "", nil
 }
 
 // dhcpScenario drives one fresh server through DISCOVER (burst of 256 fake DISCOVERs on the first one of the
-// process, then OFFER), REQUEST (ACK), a REQUEST for a foreign address (NAK), a foreign OFFER seen on the
-// client port (forced DECLINE) and StartHunt of the leased address (forced RELEASE).
-// What the handler should have sent is known to the scenario and checked by want().
-func dhcpScenario(r *lib.Run, g gen, c nicCfg) {
-	rng := g.rng
+// process, then OFFER), REQUEST (ACK), a REQUEST for a foreign address (NAK + forced DECLINE), a foreign OFFER
+// seen on the client port (forced DECLINE) and StartHunt of the leased address (forced RELEASE).
+// It is a deterministic function of (c, sseed): every random choice derives from sseed, the pool poison
+// seed too; so a case line that carries (c, sseed, kind, k) reproduces: "the k-th frame of that kind".
+// The only library-side randomness is the xid of the forced RELEASE (crypto/rand in mustXID).
+func dhcpScenario(c nicCfg, sseed uint64) (cases []dhcpCase, bad []string) {
+	rng := lib.NewRand(sseed)
 	s, cn := lib.NewSessionWith(c.nic())
 	defer func() { go s.Close() }()
 	h, file := dhcpHandler(s, c)
 	defer func() { h.Close(); os.Remove(file) }()
-	seed := g.seed()
-	step := func(frame []byte, label string, wantKinds map[string]int) {
+	seed := strconv.Itoa(rng.Intn(256))
+	harvest := func() {
+		cn.WaitQuiet(30*time.Millisecond, 2*time.Second)
+		for _, f := range cn.Take() {
+			if k, a := classifyDHCP(f, seed); k != "" {
+				cases = append(cases, dhcpCase{k, a, hx(f)})
+			} else {
+				bad = append(bad, hx(f))
+			}
+		}
+	}
+	step := func(frame []byte, label string) {
 		cn.Take()
 		poisonPool(atoi(seed))
 		fr, err := s.Parse(frame)
 		if err != nil {
-			r.Viol("c07.dhcp.harness-parse", label+": "+err.Error(), "")
+			bad = append(bad, "parse:"+label+":"+err.Error())
 			return
 		}
 		h.ProcessPacket(fr)
-		cn.WaitQuiet(30*time.Millisecond, 2*time.Second)
-		for _, f := range cn.Take() {
-			classifyDHCP(r, c, f, seed)
-		}
-		r.Stat("class.dhcp-step."+label, 1)
+		harvest()
 	}
 	mac := net.HardwareAddr{0x02, rng.Byte(), rng.Byte(), rng.Byte(), rng.Byte(), rng.Byte()}
 	xid := rng.Bytes(4)
 	zero := netip.AddrFrom4([4]byte{})
 	prl := []byte{55, 4, 1, 3, 6, 15}
 	bcast := rng.Bool()
-	step(dhcpReq(1, mac, xid, zero, bcast, [][]byte{prl}), "discover", nil)
-	// find the offered address in the lease table
+	step(dhcpReq(1, mac, xid, zero, bcast, [][]byte{prl}), "discover")
 	var offered netip.Addr
 	for _, l := range h.VerifLeases() {
 		if bytes.Equal(l.Addr.MAC, mac) {
@@ -252,12 +258,10 @@ func dhcpScenario(r *lib.Run, g gen, c nicCfg) {
 	hip := c.hostIP.As4()
 	if offered.Is4() {
 		o4 := offered.As4()
-		step(dhcpReq(3, mac, xid, zero, bcast, [][]byte{append([]byte{50, 4}, o4[:]...), append([]byte{54, 4}, hip[:]...), prl}), "request", nil)
+		step(dhcpReq(3, mac, xid, zero, bcast, [][]byte{append([]byte{50, 4}, o4[:]...), append([]byte{54, 4}, hip[:]...), prl}), "request")
 	}
-	// REQUEST (init-reboot) for an address we never offered -> NAK
 	mac2 := net.HardwareAddr{0x02, rng.Byte(), rng.Byte(), rng.Byte(), rng.Byte(), rng.Byte()}
-	step(dhcpReq(3, mac2, rng.Bytes(4), zero, true, [][]byte{{50, 4, hip[0], hip[1], hip[2], 77}}), "request-foreign", nil)
-	// an OFFER of another server seen on the client port -> forced DECLINE to that server
+	step(dhcpReq(3, mac2, rng.Bytes(4), zero, true, [][]byte{{50, 4, hip[0], hip[1], hip[2], 77}}), "request-foreign")
 	other := []byte{hip[0], hip[1], hip[2], 250}
 	offer := make([]byte, 240, 320)
 	offer[0], offer[1], offer[2] = 2, 1, 6
@@ -272,18 +276,64 @@ func dhcpScenario(r *lib.Run, g gen, c nicCfg) {
 	of := lib.MkEther(packet.EthBroadcast, c.routerMAC, 0x0800, lib.MkIP4(netip.AddrFrom4([4]byte{other[0], other[1], other[2], other[3]}),
 		netip.MustParseAddr("255.255.255.255"), 17, 64, lib.MkUDP(67, 68, offer)))
 	buf := make([]byte, packet.EthMaxSize)
-	step(buf[:copy(buf, of)], "foreign-offer", nil)
-	// StartHunt of the leased address -> forced RELEASE
+	step(buf[:copy(buf, of)], "foreign-offer")
 	if offered.Is4() {
 		cn.Take()
 		poisonPool(atoi(seed))
 		h.StartHunt(packet.Addr{MAC: mac, IP: offered})
-		cn.WaitQuiet(30*time.Millisecond, 2*time.Second)
-		for _, f := range cn.Take() {
-			classifyDHCP(r, c, f, seed)
-		}
-		r.Stat("class.dhcp-step.starthunt", 1)
+		harvest()
 	}
+	return
+}
+
+// scnToken names a frame of a scenario: scn:<sseed>:<k> = the k-th frame of the case's kind.
+func scnToken(sseed uint64, k int) string { return fmt.Sprintf("scn:%d:%d", sseed, k) }
+
+// replayDHCP is the runner of dhcpreply / decline / release (and of burst DISCOVERs): the last argument is the
+// scenario token; the scenario is re-run and the k-th frame of the kind returned.  The forced RELEASE has a
+// library-chosen random xid: the recorded one (argument 4) is written over it so that the replay reproduces.
+func replayDHCP(kind string, a []string) string {
+	c, a := cfgOf(a)
+	tok := strings.Split(a[len(a)-1], ":")
+	if len(tok) != 3 || tok[0] != "scn" {
+		return "replay-needs-a-scenario-token"
+	}
+	sseed, _ := strconv.ParseUint(tok[1], 10, 64)
+	want := atoi(tok[2])
+	// Go map iteration decides the order of the DHCP options that are not pinned by the parameter request
+	// list: the scenario is repeated until the frame carries them in the recorded order (at most 5! orders).
+	last := "none"
+	for try := 0; try < 1500; try++ {
+		cases, _ := dhcpScenario(c, sseed)
+		k := 0
+		for _, dc := range cases {
+			if dc.kind != kind {
+				continue
+			}
+			if k == want {
+				f := lib.UnHex(dc.obs)
+				if kind == "release" {
+					copy(f[42+4:42+8], lib.UnHex(a[4]))
+				}
+				last = hx(f)
+				codes, _ := optionOrder(f[42:])
+				same := false
+				switch kind {
+				case "dhcpreply":
+					same = hx(f[42:]) == a[2]
+				case "discover":
+					same = strings.Join(codes, "/") == a[4]
+				default:
+					same = strings.Join(codes, "/") == a[5]
+				}
+				if same {
+					return last
+				}
+			}
+			k++
+		}
+	}
+	return last
 }
 
 // ---------------------------------------------------------------- names
@@ -417,6 +467,9 @@ func registerPaths(r *lib.Run) {
 		return showFrames(mine)
 	})
 	r.Register("discover", func(a []string) string {
+		if strings.HasPrefix(a[len(a)-1], "scn:") { // a DISCOVER of the burst of a DHCP scenario
+			return replayDHCP("discover", a)
+		}
 		c, a := cfgOf(a)
 		var ch net.HardwareAddr
 		if a[0] != "-" {
@@ -450,7 +503,8 @@ func registerPaths(r *lib.Run) {
 		return obs
 	})
 	for _, k := range []string{"dhcpreply", "decline", "release"} {
-		r.Register(k, func(a []string) string { return "replay-needs-the-dhcp-scenario" })
+		k := k
+		r.Register(k, func(a []string) string { return replayDHCP(k, a) })
 	}
 	r.Register("mdnsq", func(a []string) string {
 		c, a := cfgOf(a)
@@ -525,7 +579,21 @@ func generatePaths(r *lib.Run, g gen, do func(kind string, c nicCfg, args ...str
 		hunts = append(hunts, hr)
 	}
 	for i := 0; i < ndhcp; i++ {
-		dhcpScenario(r, g, g.cfg())
+		c := g.cfg()
+		sseed := rng.U64() >> 1
+		cases, bad := dhcpScenario(c, sseed)
+		for _, b := range bad {
+			r.Viol("c07.dhcp.unclassified-frame", "frame emitted by the DHCP handler is not a classifiable BOOTP datagram: "+b, "")
+		}
+		nth := map[string]int{}
+		for _, dc := range cases {
+			args := append(append([]string{}, dc.args...), scnToken(sseed, nth[dc.kind]))
+			nth[dc.kind]++
+			r.Case(dc.kind, append(c.toks(), args...), dc.obs)
+			r.Stat("class."+dc.kind, 1)
+			oracle(r, dc.kind, c, args, dc.obs)
+		}
+		r.Stat("class.dhcp-scenario", 1)
 	}
 	lan := func(c nicCfg) netip.Addr {
 		hip := c.hostIP.As4()
@@ -587,7 +655,7 @@ func generatePaths(r *lib.Run, g gen, do func(kind string, c nicCfg, args ...str
 		}
 		doLate(r, "discover", c, []string{hx(g.mac()), ci, xid, hx([]byte(name))}, func(f []byte) []string {
 			codes, _ := optionOrder(f[42:])
-			return []string{hx(f[42+28 : 42+34]), ci, xid, hx([]byte(name)), strings.Join(codes, "/"), "0"}
+			return []string{hx(f[42+28 : 42+34]), ci, hx(f[42+4 : 42+8]), hx([]byte(name)), strings.Join(codes, "/"), "0"}
 		})
 
 		do("mdnsq", c, hx([]byte(g.dnsName())))
